@@ -166,6 +166,7 @@ pub fn exec(case: &Value) -> Vec<Value> {
     let bpe_bytes: Vec<u8> = match get_str(case, "balpha") {
         "umlaut" => vec![b' ', 0xC3, 0xA4, b'a'],
         "xy" => vec![b'\t', b'x', b'y', b'z'],
+        "abcde" => vec![b' ', b'a', b'b', b'c', b'd', b'e'],
         _ => vec![b' ', b'a', b'b', b'c'],
     };
     if let Some(sl) = case.get("bslots").and_then(|x| x.as_array()) {
